@@ -113,8 +113,8 @@ def families(tier, seed):
             # common non-zero starting ROC on both sides, damaged copies arriving before genuine packets, reorder around wraps
             Family("api-common-roc", [(f"croc-{k}", __import__("lib.apigen", fromlist=["x"]).replay_history(
                                            rng, tier, n_ssrc=1, steps=(100 if tier == "quick" else 700),
-                                           common_roc=rng.choice([1, 7, 0x1234, 0xfffe]), damaged=0.25)[0])
-                                      for k in range(8 if tier == "quick" else 60)],
+                                           common_roc=[1, 7, 0, 0x1234, 0xfffe][k % 5], damaged=0.25)[0])
+                                      for k in range(10 if tier == "quick" else 60)],
                    monitor=lambda s, c: __import__("lib.apigen", fromlist=["x"]).replay_monitor(s, c, False)),
             # the same histories with srtp_update (unchanged policies) on both sides in between: a re-key keeps ROC and s_l, so
             # sender and receiver stay on the same index, in particular when it happens at ROC >= 1 with s_l above 2^15
